@@ -200,8 +200,6 @@ def layer_driver(ctx):
             else:
                 state[i]['dead'] = True
             for j, (mi, mm) in enumerate(zip(im['mons'], m['mons'])):
-                if call['kind'] == 'restart':
-                    continue        # monitor objects are created per call dictionary; compared on solve calls only
                 okm = r.compare_exact(cls + '/monitor-its', inp, [int(x) for x in mi[0]], [e[0] for e in mm])
                 if okm:
                     r.compare(cls + '/monitor-times', inp, mi[1], [e[1] for e in mm], tsc, tau)
@@ -221,6 +219,8 @@ def layer_istep(ctx):
         cls = ['implicit', 'cranknicolson', 'gear'][i % 3]
         p = rand_problem(ctx.rng, cls)
         n = p['n']
+        if i % 7 == 3:
+            p['q0'] = [0.0] * n          # all-zero field: the Jacobian perturbation falls back to an absolute value
         t0 = dyadic(ctx.rng, 0, 2)
         local = ctx.rng.random() < 0.3
         dt = [abs(dyadic(ctx.rng, 0.05, 1.0)) + 2.0 ** -5 for _ in range(n if local else 1)]
